@@ -123,6 +123,15 @@ func (f *formatter) result() string {
 	return f.sb.String()
 }
 
+// nested returns the options for a statement printed inside another one (an
+// arm of a set operation, a CTE body, the query of INSERT ... SELECT or CREATE
+// VIEW, a sub-query): same style, but the terminating semicolon belongs to the
+// outermost statement only.
+func (o FormatOptions) nested() FormatOptions {
+	o.AddSemicolon = false
+	return o
+}
+
 // Format returns the formatted SQL for the full AST.
 func (a AST) Format(opts FormatOptions) string {
 	parts := make([]string, 0, len(a.Statements))
@@ -303,7 +312,7 @@ func (i *InsertStatement) Format(opts FormatOptions) string {
 	if i.Query != nil {
 		sb.WriteString(f.clauseSep())
 		if fq, ok := i.Query.(Formatter); ok {
-			sb.WriteString(fq.Format(opts))
+			sb.WriteString(fq.Format(opts.nested()))
 		} else {
 			sb.WriteString(stmtSQL(i.Query))
 		}
@@ -544,7 +553,7 @@ func (s *SetOperation) Format(opts FormatOptions) string {
 
 	if s.Left != nil {
 		if ls, ok := s.Left.(Formatter); ok {
-			sb.WriteString(ls.Format(opts))
+			sb.WriteString(ls.Format(opts.nested()))
 		} else {
 			sb.WriteString(stmtSQL(s.Left))
 		}
@@ -558,7 +567,7 @@ func (s *SetOperation) Format(opts FormatOptions) string {
 	sb.WriteString(f.clauseSep())
 	if s.Right != nil {
 		if rs, ok := s.Right.(Formatter); ok {
-			sb.WriteString(rs.Format(opts))
+			sb.WriteString(rs.Format(opts.nested()))
 		} else {
 			sb.WriteString(stmtSQL(s.Right))
 		}
@@ -709,7 +718,7 @@ func (c *CreateViewStatement) Format(opts FormatOptions) string {
 	sb.WriteString(f.kw("AS"))
 	sb.WriteString(f.clauseSep())
 	if qs, ok := c.Query.(Formatter); ok {
-		sb.WriteString(qs.Format(opts))
+		sb.WriteString(qs.Format(opts.nested()))
 	} else {
 		sb.WriteString(stmtSQL(c.Query))
 	}
@@ -759,7 +768,7 @@ func (c *CreateMaterializedViewStatement) Format(opts FormatOptions) string {
 	sb.WriteString(f.kw("AS"))
 	sb.WriteString(f.clauseSep())
 	if qs, ok := c.Query.(Formatter); ok {
-		sb.WriteString(qs.Format(opts))
+		sb.WriteString(qs.Format(opts.nested()))
 	} else {
 		sb.WriteString(stmtSQL(c.Query))
 	}
@@ -882,7 +891,7 @@ func formatExpr(e Expression, opts FormatOptions) string {
 		return ""
 	}
 	if fe, ok := e.(Formatter); ok {
-		return fe.Format(opts)
+		return fe.Format(opts.nested())
 	}
 	return exprSQL(e)
 }
@@ -893,7 +902,7 @@ func formatStmt(s Statement, opts FormatOptions) string {
 		return ""
 	}
 	if fs, ok := s.(Formatter); ok {
-		return fs.Format(opts)
+		return fs.Format(opts.nested())
 	}
 	return stmtSQL(s)
 }
@@ -1141,7 +1150,7 @@ func formatWith(w *WithClause, f *formatter) string {
 		}
 		s += f.kw("AS") + " ("
 		if qs, ok := cte.Statement.(Formatter); ok {
-			s += qs.Format(f.opts)
+			s += qs.Format(f.opts.nested())
 		} else {
 			s += stmtSQL(cte.Statement)
 		}
